@@ -343,6 +343,8 @@ def exit_cause(fv, x):
         nm = c.callee.name
         if any(k in nm for k in ("FromResidual", "Try>::branch", "::map_err", "::into", "convert::From", "::ok_or", "fmt::", "format")):
             continue
+        if nm.rsplit("::", 1)[-1] == "next" and "Iterator" in nm:
+            continue   # loop plumbing: everything behind a `for` loop is "behind next() == None"; not a cause
         ee = fv.result_edges(bi, c, "err")
         if not ee:
             continue
